@@ -390,6 +390,33 @@ theorem toENU_toWGS84_of_C01 (E : Ellipsoid ℝ) (s : State ℝ) (lat lon : ℝ)
     (toENUgeo E s g).2 = v ∧ (toENUgeo E s g).1 = s := by
   simp only [toENUgeo, ha, if_true, hC01, toENU_toECEF s lat lon hR, and_self]
 
+/-- F3f. `toENU ∘ toWGS84 = id` to within 1 mm, as a theorem (C01's `reverse_composition` + the isometry): for an
+    anchored converter and a local point `v` whose ECEF image is the image of geodetic coordinates `(lat, lon, h)` in
+    C01's property domain (every point within 100 km / 10 km of an anchor of the property's domain is), the `RN` run
+    of `toWGS84(v)` is defined and returns geodetic coordinates `g'` whose local coordinates are within 1 mm of `v`. -/
+theorem toENU_toWGS84_within_1mm {a b lat h : ℝ} (lon : ℝ) (hp : C01.PropDom a b lat h) (hl₁ : -π < lon) (hl₂ : lon ≤ π)
+    (s : State ℝ) (alat alon : ℝ) (hR : s.R = frameR alat alon) (ha : s.anchored = true) (v : Vec3 ℝ)
+    (hv : toECEFv s v = toECEF (Ellipsoid.make a b) ⟨lat, lon, h⟩) (fuel : Nat) (hf : 8 ≤ fuel) :
+    ∃ g' : Geo ℝ,
+      toWGS84v fuel (Ellipsoid.make (RN.of a) (RN.of b)) (ofS s) (C01.ofV v) = some (C01.ofG g') ∧
+      dist3 (toENUgeo (Ellipsoid.make a b) s g').2 v ≤ 1e-3 := by
+  have hd := hp.dom
+  obtain ⟨φ', h', e, ex, ey, ez⟩ := C01.reverse_composition_real lon hp hl₁ hl₂ fuel hf
+  refine ⟨⟨φ', lon, h'⟩, ?_, ?_⟩
+  · unfold toWGS84v
+    rw [toECEFv_of, hv, ← e, C01.make_of hd.hb hd.hab]
+    congr 1
+    exact (C01.toECEF_of _ ⟨lat, lon, h⟩ (C01.radicand_pos hd.hb hd.hab lat)).symm
+  · simp only [toENUgeo, ha, if_true]
+    have h1 : dist3 (toENUv s (toECEF (Ellipsoid.make a b) ⟨φ', lon, h'⟩)) (toENUv s (toECEFv s v)) =
+        dist3 (toECEF (Ellipsoid.make a b) ⟨φ', lon, h'⟩) (toECEFv s v) := isometry s alat alon hR _ _
+    rw [toENU_toECEF s alat alon hR] at h1
+    rw [h1, hv]
+    unfold dist3
+    simp only [dot, vsub, ex, ey, sub_self, mul_zero, zero_add]
+    rw [← sq, Real.sqrt_sq_eq_abs]
+    exact ez
+
 /-! ## 4. History: the state after ANY sequence of calls is a function of the anchor bookkeeping alone
 
 Proved for every scalar type `α` (structural: no arithmetic fact is used), hence also at `Float`. -/
